@@ -84,7 +84,7 @@ def observe_objs(objs):
             out[t] = ('c', repr(o.label))
         else:
             reals.append((t, o)); out[t] = ('r',)
-    kept = set(tuple(r._node.uid) for _, r in reals if r._node is not None and r.is_intermediate)
+    kept = set(tuple(r._node.uid) for _, r in reals if r._node is not None and r._node.uid is not None and r.is_intermediate)
     for n, r in reals:
         comps = sorted((tuple(k.uid), cf(v)) for k, v in zip(r._u_components.keys(), r._u_components.values()))
         comps += sorted((tuple(k.uid), cf(v)) for k, v in zip(r._d_components.keys(), r._d_components.values()))
@@ -92,7 +92,7 @@ def observe_objs(objs):
         icomps = sorted((tuple(k.uid), cf(v)) for k, v in zip(r._i_components.keys(), r._i_components.values())
                         if tuple(k.uid) in kept)
         out[n + '#'] = (cf(r.x), cf(r.u), cf(r.df), repr(r.label), bool(r.is_elementary), bool(r.is_intermediate),
-                        tuple(r._node.uid) if r._node is not None else None, comps, icomps)
+                        tuple(r._node.uid) if r._node is not None and r._node.uid is not None else None, comps, icomps)
     for i, (n1, r1) in enumerate(reals):
         for n2, r2 in reals[:i]:
             try:
@@ -123,6 +123,11 @@ Import ListNotations.
 Local Open Scope string_scope.
 Local Open Scope float_scope.
 '''
+
+def count_zero_u(ar, dist):
+    """stored uncertainties that are exactly zero (leaf table and intermediate table of a frozen archive)"""
+    dist['zero_u_leaves'] = dist.get('zero_u_leaves', 0) + sum(1 for ln in ar._leaf_nodes.values() if ln.u == 0)
+    dist['zero_u_intermediates'] = dist.get('zero_u_intermediates', 0) + sum(1 for v in ar._intermediate_uids.values() if v[1] == 0)
 
 def count_nonfloat(ar, dist):
     """stored numeric fields of a frozen archive that are not plain Python floats (numpy scalars left by arithmetic with numpy constants)"""
@@ -222,7 +227,7 @@ def correspondence(rng, tier):
         dist['archives'] += 1
         for k in desc['kinds']: dist['kinds'][k] = dist['kinds'].get(k, 0) + 1
         dist['leaves'] += len(ar._leaf_nodes); dist['tagged'] += len(tags); dist['intermediates'] += len(ar._intermediate_uids)
-        count_nonfloat(ar, dist)
+        count_nonfloat(ar, dist); count_zero_u(ar, dist)
         base_text = P.dumps_json(ar)
         base = json.loads(base_text)
         info = {'archive': ai, 'ctx': ctx, 'archive_seed': aseed, 'format': 'json', 'tags': tags}
@@ -309,10 +314,11 @@ def correspondence(rng, tier):
     gmeta.append([{'check': 'witness of C09_sniff_refuted: model document/text = implementation'},
                   {'check': 'witness of C09_sniff_refuted: decoder chosen', 'path': wpath, 'outcome': str(wobs)[:100]}])
     # tags that are words of the storage formats (every one of them, as real / complex / intermediate entries)
-    for kind in ('real', 'complex', 'interm', 'numeric', 'numeric32'):
+    for kind in ('real', 'complex', 'interm', 'numeric', 'zero', 'numeric32'):
         fails, rar, rtags = check_reserved(kind)
         dist['reserved_tags_' + kind] = len(rtags); steps += 4
         if kind.startswith('numeric'): count_nonfloat(rar, dist)
+        if kind == 'zero': count_zero_u(rar, dist)
         for r in fails:
             if not is_known(dict(r, format='reserved')):
                 mism.append(dict(r, kind='reserved-tags', format='reserved', options={'kind': kind}))
@@ -378,7 +384,7 @@ def check_reserved(kind, ctx=7):
     from GTC import persistence as P
     from lxml import etree
     V = validators()
-    builder = {'numeric': G.numeric_archive, 'numeric32': G.numeric32_archive}.get(kind)
+    builder = {'numeric': G.numeric_archive, 'numeric32': G.numeric32_archive, 'zero': G.zero_archive}.get(kind)
     ar, tags, items = builder(ctx) if builder else G.reserved_archive(kind, ctx)
     orig = observe_objs(items)
     f32 = mark_f32(ar, items)
@@ -447,8 +453,12 @@ def xml_check_cell(ar, tags, o, base_obs, k):
         doc = etree.fromstring(xml_bytes(out))
     except Exception as ex:
         return {'why': 'not-well-formed', 'detail': str(ex)[:150], 'nonascii_bytes': na}
+    known_schema = None
     if not V['xsd'].validate(doc):
-        return {'why': 'schema', 'detail': str(V['xsd'].error_log)[:300]}
+        known_schema = {'why': 'schema', 'detail': str(V['xsd'].error_log)[:300]}
+        if not all("'nan' is not a valid value" in e.message for e in V['xsd'].error_log):
+            return known_schema
+        # only the nan-dof complaint of known finding C09-5: the rest of the cell (file writer, every loader) is still checked
     try:
         f = io.StringIO() if isinstance(out, str) else io.BytesIO()
         P.dump_xml(f, ar, **G.xml_kwargs(o))
@@ -463,7 +473,7 @@ def xml_check_cell(ar, tags, o, base_obs, k):
         if obs != base_obs:
             return {'why': 'reload', 'loader': how, 'outcome': str(obs)[:200], 'nonascii_bytes': na,
                     'diff_keys': diff_keys(obs, base_obs), 'f32': f32_of(ar), 'written_as': 'xml'}
-    return None
+    return known_schema
 
 def write_sequence(ar, tags, order, orig_obs, k, refs):
     """the SAME Archive object written several times in the given order of formats (default options);
@@ -554,7 +564,7 @@ def xml_correspondence(rng, tier, dist, samples):
         dist['xml_nonascii_labels'] = dist.get('xml_nonascii_labels', 0) + sum(
             1 for ln in ar._leaf_nodes.values() if ln.label and any(ord(c) > 127 for c in ln.label))
         dist['xml_archives'] += 1
-        count_nonfloat(ar, dist)
+        count_nonfloat(ar, dist); count_zero_u(ar, dist)
         dist['xml_finite_dof_above_1e5'] += sum(1 for ln in ar._leaf_nodes.values() if 1e5 < ln.df < math.inf)
         f = io.BytesIO(); P.dump_xml(f, ar); base_out = f.getvalue()
         if base_out != P.dumps_xml(ar):
@@ -842,7 +852,7 @@ def search(rng, tier, broken):
         seed = rng.getrandbits(48); ctx = rng.choice([7, rng.getrandbits(100) + 1])
         pgrid = [{'prefix': q, 'expect': e} for e, l in (('accept', G.GOOD_PREFIXES), ('refuse', G.BAD_PREFIXES), ('either', G.RESERVED_PREFIXES)) for q in l]
         for fmt, grid in (('json', G.JSON_GRID), ('xml', G.XML_GRID), ('sequence', [{'order': q} for q in SEQUENCES]), ('prefix', pgrid),
-                          ('reserved', [{'kind': q} for q in ('real', 'complex', 'interm', 'numeric', 'numeric32')])):
+                          ('reserved', [{'kind': q} for q in ('real', 'complex', 'interm', 'numeric', 'zero', 'numeric32')])):
             for o in rng.sample(grid, min(6, len(grid))):
                 f = {'format': fmt, 'archive_seed': seed, 'ctx': ctx, 'options': o}
                 if is_known(f): continue
